@@ -251,7 +251,8 @@ func (s *poolSession) closeAll() {
 //
 // observation = (((conn (message ..)) ..) ((kind ctrl data (frame ..) (response ..)) ..)
 //
-//	(wsp pool ids ..) (rtsp pool ids ..) (malformed setup messages ..) forced note)
+//	(wsp pool ids ..) (rtsp pool ids ..) (malformed setup messages ..) forced note
+//	((published ..) (the same packets afterwards ..) padding-flags-changed))
 func c13pool(c Val) Val {
 	poolStart()
 	earlier, playing, pkts, reqs := c.At(0).List(), c.At(1).List(), c.At(2).List(), c.At(3).List()
@@ -276,6 +277,8 @@ func c13pool(c Val) Val {
 		switch {
 		case strings.HasPrefix(point, "consume."):
 			return fmt.Sprintf("m%d", id&0x3fffffff)
+		case strings.HasPrefix(point, "worker.") && id == 1:
+			return "demux" // the stream's RTP->frame demuxer: works on the SAME *rtp.Packet the viewers are sent
 		case strings.HasPrefix(point, "sock.write:"):
 			writerMu.Lock()
 			defer writerMu.Unlock()
@@ -292,6 +295,9 @@ func c13pool(c Val) Val {
 		}
 		if atomic.LoadInt32(&armed) == 0 || !watch[thread] {
 			return false
+		}
+		if thread == "demux" {
+			return point == "worker.got"
 		}
 		if thread[0] == 'm' {
 			return point == "consume.got" || point == "rtpwrite.prefix" || strings.HasPrefix(point, "sock.write:")
@@ -469,10 +475,12 @@ func c13pool(c Val) Val {
 	for _, s := range ps {
 		watch[mediaName(s)], watch["r:"+s.ctrl.name] = true, true
 	}
+	watch["demux"] = true
 	threads := func() (out []string) {
 		for _, s := range ps {
 			out = append(out, mediaName(s), reqName(s))
 		}
+		out = append(out, "demux")
 		return
 	}
 	start := map[*wsClient]int{}
@@ -480,10 +488,14 @@ func c13pool(c Val) Val {
 		start[s.ctrl], start[s.data] = s.ctrl.count(), s.data.count()
 	}
 	nextPkt, nextReq := 0, 0
+	var published []*rtp.Packet
+	var pubData []Val
+	var pubPad []bool
 	publish := func() {
 		p := pkts[nextPkt]
 		nextPkt++
 		pk := mkPacket(p)
+		published, pubData, pubPad = append(published, pk), append(pubData, B(append([]byte(nil), pk.Data...))), append(pubPad, pk.Padding)
 		for _, s := range ps {
 			ch := s.chmap[pk.Channel]
 			if ch < 0 {
@@ -549,6 +561,10 @@ func c13pool(c Val) Val {
 			}
 			st := ctl.Status(mediaName(a))
 			if (scKind == 0 && st == want) || (scKind == 1 && inWrite(mediaName(a))) {
+				// the frame is half composed / half sent: the demuxer works on the shared packet now
+				for g := 0; g < 8 && parked("demux"); g++ {
+					ctl.Step("demux")
+				}
 				before := total()
 				s := feed()
 				runOut(reqName(s))
@@ -660,7 +676,15 @@ func c13pool(c Val) Val {
 	}
 	wspPool := number(wsp.VerifDrainBuffers())
 	rtspPool := number(rtsp.VerifDrainBuffers())
-	return L(L(conns...), L(sess...), wspPool, rtspPool, L(badSetup...), I(forced), S(strings.TrimSpace(note)))
+	after, padChanged := []Val{}, int64(0)
+	for i, pk := range published {
+		after = append(after, B(append([]byte(nil), pk.Data...)))
+		if pk.Padding != pubPad[i] {
+			padChanged++
+		}
+	}
+	return L(L(conns...), L(sess...), wspPool, rtspPool, L(badSetup...), I(forced), S(strings.TrimSpace(note)),
+		L(L(pubData...), L(after...), I(padChanged)))
 }
 
 func init() { commands["C13_pool"] = c13pool }
